@@ -14,13 +14,19 @@ _ids = itertools.count()
 
 
 def gen_case(rng):
+    if rng.random() < 0.3:
+        # a caller-managed loop of unforced run_for(1) calls and a timestep that does not divide the window: the
+        # process is put off and invoked later — with the view of the state at that later moment
+        return {'kind': 'parviews', 'parallel': False, 'dt': 1.5, 'calls': rng.choice([4, 5]), 'add_at': rng.choice([1, 2]),
+                'del_at': rng.choice([2, 3, 9]), 'x0': rng.choice([0, 10]), 'windows': True}
     return {'kind': 'parviews', 'parallel': rng.random() < 0.7, 'dt': rng.choice([1.0, 2.0]),
             'calls': rng.choice([3, 4]), 'add_at': rng.choice([1, 2]), 'del_at': rng.choice([2, 3, 9]),
             'x0': rng.choice([0, 10])}
 
 
 def corpus():
-    return [{'kind': 'parviews', 'parallel': True, 'dt': 1.0, 'calls': 4, 'add_at': 1, 'del_at': 3, 'x0': 0},
+    return [{'kind': 'parviews', 'parallel': False, 'dt': 1.5, 'calls': 4, 'add_at': 1, 'del_at': 3, 'x0': 0, 'windows': True},
+            {'kind': 'parviews', 'parallel': True, 'dt': 1.0, 'calls': 4, 'add_at': 1, 'del_at': 3, 'x0': 0},
             {'kind': 'parviews', 'parallel': False, 'dt': 2.0, 'calls': 3, 'add_at': 2, 'del_at': 9, 'x0': 10}]
 
 
@@ -36,19 +42,34 @@ def run_impl(case):
     import warnings
     warnings.simplefilter('ignore')
     from vivarium.core.engine import Engine
-    from harness.parviews_procs import Viewer, Feeder
+    from harness.parviews_procs import Viewer, Feeder, CTX
+    ctx_key = f'pv-{next(_ids)}'
     obs = {}
     eng = None
     try:
         dt = case['dt']
-        eng = Engine(processes={'viewer': Viewer({'dt0': dt, '_parallel': case['parallel']}),
+        feeder_ts = 1.0 if case.get('windows') else dt
+        eng = Engine(processes={'viewer': Viewer({'dt0': dt, '_parallel': case['parallel'],
+                                                  'ctx': None if case['parallel'] else ctx_key}),
                                 'feeder': Feeder({'add_at': case['add_at'], 'del_at': case['del_at'],
-                                                  'timestep': dt})},
+                                                  'timestep': feeder_ts})},
                      topology={'viewer': {'agents': ('agents',), 'clock': ('clock',), 'report': ('report',)},
                                'feeder': {'agents': ('agents',)}},
                      initial_state={'agents': {'a': {'x': case['x0']}, 'b': {'x': 5}}, 'clock': {'dt': dt}},
                      emitter={'type': 'null'}, display_info=False, progress_bar=False)
+        if not case['parallel']:
+            CTX[ctx_key] = eng
         rows = []
+        if case.get('windows'):
+            seen = []
+            for _ in range(case['calls']):
+                eng.run_for(1.0)
+                rep = eng.state.get_value()['report']
+                if rep['nu'] and (not seen or seen[-1] != [rep['nu'], rep['now']]):
+                    seen.append([rep['nu'], rep['now']])
+            obs['windows'] = seen
+            obs['rows'] = []
+            return obs
         for _ in range(case['calls']):
             st = eng.state.get_value()
             before = {'agents': {k: {'x': v['x']} for k, v in st['agents'].items()},
@@ -60,6 +81,7 @@ def run_impl(case):
     except Exception as e:  # noqa
         obs['raised'] = f'{type(e).__name__}: {str(e)[:200]}'
     finally:
+        CTX.pop(ctx_key, None)
         if eng is not None:
             try:
                 eng.end()
@@ -76,6 +98,10 @@ def oracle(case, impl):
     if impl.get('raised'):
         return [f'views-raised: {impl["raised"]}']
     fails = []
+    for nu, now in impl.get('windows', []):
+        if nu != now:
+            return [f'postponed-view: a process put off by a caller-managed run_for() loop (timestep 1.5, windows of '
+                    f'1) is invoked with {nu[:200]}; the hierarchy at that moment projects to {now[:200]}']
     how = 'in a worker' if case['parallel'] else 'serially'
     for i, r in enumerate(impl['rows']):
         for call, key in (('calculate_timestep', 'ct'), ('update_condition', 'uc'), ('next_update', 'nu')):
